@@ -51,6 +51,7 @@ type output struct {
 	Violations      []violation      `json:"violations"`
 	Reports         []scenarioReport `json:"reports"`
 	ReplayChecks    int              `json:"replay_determinism_checks"`
+	PointsReached   []int            `json:"points_reached"` // union over all executions of all scenarios
 	DivergedReplays int              `json:"prefixes_that_no_longer_fit"`
 }
 
@@ -207,12 +208,20 @@ func main() {
 		out.DivergedReplays += r.DivergedReplays
 		out.Capped = append(out.Capped, r.Capped...)
 		out.Violations = append(out.Violations, r.Violations...)
+		for _, p := range r.PointsReached {
+			reached[p] = true
+		}
 		for _, rep := range r.Reports {
 			if len(rep.PointsSeen) > 0 || len(out.Reports) < 3 {
 				out.Reports = append(out.Reports, rep)
 			}
 		}
 	}
+	out.PointsReached = nil
+	for p := range reached {
+		out.PointsReached = append(out.PointsReached, p)
+	}
+	sort.Ints(out.PointsReached)
 	b, _ := json.Marshal(out)
 	os.Stdout.Write(b)
 }
@@ -254,11 +263,29 @@ func tailStr(s string, n int) string {
 	return s
 }
 
+var reached = map[int]bool{}
+
+func noteReached(x *sched.Execution) {
+	for _, d := range x.Decisions {
+		if d.Point > 0 {
+			reached[d.Point] = true
+		}
+	}
+}
+
 func runScenario(out *output, sc scenario, bound, maxSteps, maxExec int) {
+	defer func() {
+		out.PointsReached = out.PointsReached[:0]
+		for p := range reached {
+			out.PointsReached = append(out.PointsReached, p)
+		}
+		sort.Ints(out.PointsReached)
+	}()
 	// the first execution of the process runs on the initial global state (nothing has been called yet, every lazily
 	// built table or cache is cold): it is judged for hazards and panics, and its results against the sequential
 	// results computed afterwards
 	x1 := sched.Run(bodies(sc), nil, maxSteps)
+	noteReached(x1)
 	exp := expected(sc)
 	out.Scenarios++
 	if key, what := judge(x1, exp); key != "" {
@@ -289,6 +316,7 @@ func runScenario(out *output, sc scenario, bound, maxSteps, maxExec int) {
 	found := map[string]bool{}
 	st := sched.Explore(func() []sched.Body { return bodies(sc) }, bound, maxSteps, maxExec, func(x *sched.Execution, schedule []int) bool {
 		out.Transitions += len(x.Decisions)
+		noteReached(x)
 		if x.Diverged != "" {
 			// the recorded prefix no longer fits (the set of scheduling points changed, e.g. a pool or a lazy
 			// initialisation reached a different state): the execution is still a legal schedule and is judged as one
